@@ -66,12 +66,17 @@ Definition is_all_prereleases (cs : list cand) : bool :=
   forallb (fun c => is_prerelease (ver c)) cs.
 
 (* ---- Candidate.sortkey and sort_candidates ---- *)
+(* code points of a str, for tuple comparison *)
+Definition str_codes (s : string) : list Z :=
+  map (fun a => Z.of_N (N_of_ascii a)) (list_ascii_of_string s).
+
 Definition field_key (f : field) (c : cand) : list Z :=
   match f with
   | FVersion => vkey (ver c)
   | FExtra => extra c
   | FType => [dist_type_rank (ckind c)]
   | FTag => tagscore c
+  | FFile => str_codes (cfile c)      (* the file name (or "") as the last tie-break *)
   end.
 
 (* (T1) the tuple built in Candidate.sortkey, component by component *)
